@@ -66,7 +66,9 @@ func (x *xf) tmp(p string) *ast.Ident {
 	return ast.NewIdent("_vx" + p + strconv.Itoa(x.n))
 }
 
-func sel(pkg, name string) ast.Expr { return &ast.SelectorExpr{X: ast.NewIdent(pkg), Sel: ast.NewIdent(name)} }
+func sel(pkg, name string) ast.Expr {
+	return &ast.SelectorExpr{X: ast.NewIdent(pkg), Sel: ast.NewIdent(name)}
+}
 
 func call(fn ast.Expr, args ...ast.Expr) *ast.CallExpr { return &ast.CallExpr{Fun: fn, Args: args} }
 
